@@ -353,6 +353,16 @@ func checkC19(c *ctx) {
 		}
 		return b
 	}
+	// one field with more than 2^20 floats of vector data in a single build
+	var bigBuild zh.Batch
+	for d := 0; d < 2100; d++ {
+		v := make([]float32, 512)
+		for i := range v {
+			v[i] = float32((d*31+i*7)%97) / 8
+		}
+		bigBuild = append(bigBuild, zh.Doc{Fields: []zh.Field{zh.IDField(fmt.Sprintf("B%05d", d)),
+			{Name: "vec", Typ: 'v', Vec: &zh.VecDef{Dims: 512, Sim: "l2_norm", Opt: "recall", Data: v}}}})
+	}
 	type scen struct {
 		name   string
 		build  zh.Batch   // build scenario
@@ -365,11 +375,14 @@ func checkC19(c *ctx) {
 		{name: "build, one field, exact index", build: mkBatch(5, 2, 1, "a"), fields: sx.L(sx.Bool(false))},
 		{name: "build, two fields, exact index", build: mkBatch(4, 1, 2, "b"), fields: sx.L(sx.Bool(false), sx.Bool(false))},
 		{name: "build, >= 1000 vectors (clustered index: SetDirectMap, Train)", build: mkBatch(520, 2, 1, "c"), ivf: true, fields: sx.L(sx.Bool(true))},
+		{name: "build, one field with 2100 vectors of 512 dimensions (more than 2^20 floats)", build: bigBuild, ivf: true, fields: sx.L(sx.Bool(true))},
 		{name: "merge of two segments, exact index", inputs: []zh.Batch{mkBatch(4, 1, 1, "d"), mkBatch(3, 2, 1, "e")}, drops: [][]uint64{{1}, nil}, fields: sx.L(sx.L(sx.N(2), sx.Bool(false)))},
 		{name: "merge of three segments, two fields", inputs: []zh.Batch{mkBatch(3, 1, 2, "f"), mkBatch(3, 1, 2, "g"), mkBatch(2, 1, 1, "h")}, drops: [][]uint64{nil, {0}, nil}, fields: sx.L(sx.L(sx.N(2), sx.Bool(false)), sx.L(sx.N(3), sx.Bool(false)))},
 		{name: "merge of one segment with a deletion (a single contributor)", inputs: []zh.Batch{mkBatch(4, 1, 1, "k")}, drops: [][]uint64{{1}}, fields: sx.L(sx.L(sx.N(1), sx.Bool(false)))},
 		{name: "merge of three segments, the first one fully deleted", inputs: []zh.Batch{mkBatch(3, 1, 1, "l"), mkBatch(3, 1, 1, "m"), mkBatch(2, 2, 1, "n")}, drops: [][]uint64{{0, 1, 2}, nil, {0}}, fields: sx.L(sx.L(sx.N(2), sx.Bool(false)))},
 		{name: "merge of three segments, only the middle one contributes vectors", inputs: []zh.Batch{mkBatch(2, 1, 1, "o"), mkBatch(3, 2, 1, "p"), mkBatch(2, 1, 1, "q")}, drops: [][]uint64{{0, 1}, nil, {0, 1}}, fields: sx.L(sx.L(sx.N(1), sx.Bool(false)))},
+		{name: "merge of ten segments, one of them fully deleted (nine source indexes)", inputs: []zh.Batch{mkBatch(2, 1, 1, "t0"), mkBatch(2, 1, 1, "t1"), mkBatch(2, 1, 1, "t2"), mkBatch(2, 1, 1, "t3"), mkBatch(2, 1, 1, "t4"), mkBatch(2, 1, 1, "t5"), mkBatch(2, 1, 1, "t6"), mkBatch(2, 1, 1, "t7"), mkBatch(2, 1, 1, "t8"), mkBatch(2, 1, 1, "t9")},
+			drops: [][]uint64{nil, nil, nil, {0, 1}, nil, nil, {0}, nil, nil, nil}, fields: sx.L(sx.L(sx.N(9), sx.Bool(false)))},
 		{name: "merge with an input whose own index is clustered (>= 1000 vectors in one input)", inputs: []zh.Batch{mkBatch(520, 2, 1, "r"), mkBatch(3, 1, 1, "s")}, drops: [][]uint64{{5}, nil}, ivf: true, fields: sx.L(sx.L(sx.N(2), sx.Bool(true)))},
 		{name: "merge reaching >= 1000 vectors (clustered index)", inputs: []zh.Batch{mkBatch(300, 2, 1, "i"), mkBatch(260, 2, 1, "j")}, drops: [][]uint64{nil, nil}, ivf: true, fields: sx.L(sx.L(sx.N(2), sx.Bool(true)))},
 	}
@@ -492,6 +505,10 @@ func checkC19(c *ctx) {
 				switch {
 				case !reached:
 					bad = fmt.Sprintf("the %d-th call of %s was not reached although the fault-free run makes %d calls (non-deterministic engine-call program)", n, op, counts[op])
+				case err == nil:
+					// the property itself, whatever the model of the call program says: the engine
+					// reported a failure (the injected call was reached) and the operation succeeded
+					bad = fmt.Sprintf("the engine reported a failure in call #%d of %s but the operation returned no error", n, op)
 				case a.L[3].N != 1:
 					bad = "model: the engine-call program does not close every index exactly once (model defect)"
 				case (err != nil) != wantErr:
